@@ -20,7 +20,15 @@ impl<T> TooDeeVisitor<T> {
         }
     }
 }
-const FIELDS: &[&str] = &["num_cols", "num_rows", "data"];
+/// The field names of a serialized `TooDee`. Deserialized as an identifier so that both borrowed
+/// and owned/transient keys (e.g. from `serde_json::from_reader` or `from_value`) are understood.
+#[derive(serde::Deserialize)]
+#[serde(field_identifier, rename_all = "snake_case")]
+enum Field {
+    NumCols,
+    NumRows,
+    Data,
+}
 
 impl<'de, T> Visitor<'de> for TooDeeVisitor<T>
     where T: Deserialize<'de>
@@ -38,24 +46,23 @@ impl<'de, T> Visitor<'de> for TooDeeVisitor<T>
         let mut num_cols = None;
         let mut num_rows = None;
         let mut data = None;
-        while let Some(key) = visitor.next_key::<&str>()? {
+        while let Some(key) = visitor.next_key::<Field>()? {
             match key {
-                "num_cols" => {
+                Field::NumCols => {
                     if num_cols.is_some() {
                         return Err(de::Error::duplicate_field("num_cols"));
                     }
                     num_cols = Some(visitor.next_value::<usize>()?)
                 },
-                "num_rows" => {
+                Field::NumRows => {
                     if num_rows.is_some() {
                         return Err(de::Error::duplicate_field("num_rows"));
                     }
                     num_rows = Some(visitor.next_value::<usize>()?)
                 },
-                "data" => {
+                Field::Data => {
                     data = Some(visitor.next_value::<Vec<T>>()?)
                 },
-                &_ => return Err(de::Error::unknown_field(key, FIELDS)),
             }
         }
         let num_cols = num_cols.ok_or_else(|| de::Error::missing_field("num_cols"))?;
